@@ -389,6 +389,8 @@ def main(argv=None):
 
 def _write_replay(prop, v) -> str:
     d = os.path.join(VERIF, "replays", prop)
+    if os.environ.get("VERIF_NO_EVIDENCE"):
+        d = os.path.join("/tmp", "vf-mutant-replays", prop)
     os.makedirs(d, exist_ok=True)
     doc = {"property": prop, "signature": v["sig"], "detail": v["detail"], "case": v["case"]}
     name = h([v["sig"], v["case"]])[:12] + ".json"
@@ -418,6 +420,8 @@ def _replay(mod, prop, path) -> int:
 
 
 def _write_evidence(mod, prop, tier, seed, st: Stats, wall, nviol):
+    if os.environ.get("VERIF_NO_EVIDENCE"):
+        return
     os.makedirs(os.path.join(VERIF, "evidence"), exist_ok=True)
     cov = {
         "evaluations": st.evaluations,
